@@ -37,6 +37,7 @@
 -/
 import NetflowModel.Lemmas.B2Feature
 import NetflowModel.Generated
+import NetflowModel.Lemmas.G1Arms
 namespace Netflow.Props
 open Netflow Netflow.B2
 
@@ -327,5 +328,11 @@ example :
       .done [.ipfix [10, 36, 1, 2, 3] [⟨2, 12, .template ⟨256, 1, [⟨600, 4, none⟩], []⟩⟩]] ∧
     Generated.tables.ipTy (Generated.tables.ipField 600) = .unknown := by
   decide +kernel
+
+/-- **C17.G** (regenerated on every run) the value decoder of the model IS the interpretation (`Arms.lean`) of the arms of
+    `FieldValue::from_field_type` as `tools/translate.py` reads them from data_number.rs now: in particular the `Unknown` arm is the only one that depends on the cargo feature (`.unknownGated`). -/
+theorem C17_value_arms_generated (c : ValueCfg) (ty : FType) (len : Nat) (i : Bytes) :
+    parseValue c ty len i = parseValueBy Generated.valueArms c ty len i :=
+  G1.parseValue_eq_generated c ty len i
 
 end Netflow.Props
